@@ -2,7 +2,7 @@
 From Coq Require Import List NArith Bool Lia Arith String.
 Import ListNotations.
 Require Import St.
-Require Typo.
+Require Typo Unicode.
 Open Scope N_scope.
 
 (* inlineToText: unknown variables are reported (whatever the pass); names starting with $ read the environment (empty here) *)
@@ -95,9 +95,8 @@ Fixpoint parse_options (fuel : nat) (sp : spec) (l : list arg) (acc : popts) (s 
 Definition parse_opts (sp : spec) (l : list arg) (s : st) : popts * st :=
   parse_options (S (List.length l)) sp l (mkPo [] [] []) s.
 
-(* unicode.IsPunct restricted to what the prototype's documents use; the real table is generated *)
-Definition is_punct (c : rune) : bool :=
-  existsb (N.eqb c) [33;34;35;37;38;39;40;41;42;44;45;46;47;58;59;63;64;91;92;93;95;123;125;161;167;171;182;183;187;191;8211;8212;8216;8217;8220;8221;8230].
+(* unicode.IsPunct: the toolchain's P table, regenerated into Gen/Tables.v *)
+Definition is_punct (c : rune) : bool := Unicode.is_punct c.
 
 Definition is_punct_arg (a : arg) (s : st) : bool * st :=
   let '(a1, stop) := match a with
